@@ -113,6 +113,17 @@ CLAIMED["C08"] = dict(
     technique="Lean 4 theorems (length bookkeeping; CBOR output denotes input) + outputs judged by Lean reference decoders",
     design="§5 C08")
 
+CLAIMED["C10"] = dict(
+    text="Lean 4 proofs: (1) the payload reader all binary decoders use (model of source_reader::read) never grows its buffer beyond the bytes that "
+         "actually arrived plus one chunk, for every claimed length; (2) the nesting limit of the RFC 8259 reference is exact at every depth. The real "
+         "decoders and encoders of all formats are checked on every run at limit-1/limit/limit+1 for every container shape, UBJSON max_items on every "
+         "container form, heap use under claimed lengths 2^20..2^62 with a counting operator new through buffer/iterator/stream sources, and stack use "
+         "of destroy/copy/compare/dump on values nested up to 10^5 (thorough 10^6) deep.",
+    note="Partial: real heap footprint and stack depth are runtime facts, observed by meters in a non-sanitized harness, not proved. The depth theorem is "
+         "about the Lean reference; the real parsers are tied to it by the C02/C10 differential streams. D29 (assertion on deep dump) found and fixed.",
+    technique="Lean 4 theorems (allocation ledger bound, exact depth limit) + limit sweeps and allocation/stack meters on the real code",
+    design="§5 C10")
+
 ALL = ["C%02d" % i for i in range(1, 21)]
 NOT_YET = "not claimed yet: the Lean model, theorems and correspondence harness for this property are still being built (see DESIGN.md §8 staging)"
 
